@@ -10,6 +10,8 @@ format_mesen_mlb (directly and through driver::format_output).  Per text, three 
   (2) spec: the extracted checker of coq/Spec/ListingSpec.v reads the IMPLEMENTATION's text and compares it with the
       implementation's own spans + bits + files + symbols (a 0 is a concrete failing input);
   (3) an independent Python reading of the annotated, addrspan and symbols texts.
+  (4) addresses: every span's logical address (which all three listings print) == addr_start + (offset - outp) / unit
+      of the bank whose output window holds the offset (extracted addresses_ok + Python), incl. non-power-of-two units.
 Plus sensitivity controls: damaged texts and the pre-F53 model text must be REJECTED by the extracted checker."""
 import vlib
 import c12_gen
@@ -26,7 +28,8 @@ RULE = ("G-prog (tools/c12_gen.py): programs with 1-3 banks (address units 1,3,4
         "(base 2/16), addrspan, symbols, mesen-mlb. Each (program, format) is one evaluation: implementation text == "
         "extracted model text, extracted spec checker accepts the implementation text against the implementation's "
         "own spans/bits/symbols, independent Python reading agrees (annotated, addrspan, symbols). non-trivial = "
-        "distinct (program, format+parameters) of a program that assembled and has at least one of: several banks, "
+        "each program once more for the address oracle (listed address = bank addr + (offset - outp) / unit, banks with "
+        "#bits 3,5,6,7,12,24 included); distinct (program, format+parameters) of a program that assembled and has at least one of: several banks, "
         "a bit-granular unit, an included file, a nested symbol, a noemit constant, a span without output position, "
         "spans emitted out of output order, a size that is not a multiple of the digit width")
 
@@ -53,8 +56,13 @@ def parse_answer(ans):
             i, d, nm, k, v, ne, b = e.split(":")
             syms.append({"index": int(i), "depth": int(d), "full": bytes.fromhex(nm).decode("utf-8"), "kind": k,
                          "value": None if v == "-" else int(v, 16), "noemit": ne == "1", "bank": b, "wire": e})
-    return {"bits": bits, "spans": spans, "files": files, "syms": syms, "spans_wire": f[2], "files_wire": f[3],
-            "syms_wire": f[4], "outs": f[5:]}
+    banks = []
+    for e in f[5].split(","):
+        i, a, u, o, z = e.split(":")
+        banks.append({"index": int(i), "addr": int(a, 16), "unit": int(u), "outp": None if o == "-" else int(o),
+                      "size": None if z == "-" else int(z)})
+    return {"bits": bits, "spans": spans, "files": files, "syms": syms, "banks": banks, "spans_wire": f[2],
+            "files_wire": f[3], "syms_wire": f[4], "banks_wire": f[5], "outs": f[6:]}
 
 
 def split_out(o):
@@ -195,6 +203,29 @@ def py_mesen_ok(info, text):
             if off >= 0 and 0 <= start <= s["value"] < 2 ** 64:
                 w += "P:%x:%s\n" % (off, nm)
     return w == text, "expected %r" % w[:300]
+
+
+def py_addresses_ok(info):
+    """every span with an output position carries the address its bank assigns to that position:
+    addr_start + (offset - outp) // unit (labels and zero-sized items: the end of the window included)"""
+    banks = info["banks"] if len(info["banks"]) == 1 else [b for b in info["banks"] if b["index"] != 0]
+    for s in info["spans"]:
+        if s["off"] is None:
+            continue
+        cands = []
+        for b in banks:
+            if b["outp"] is None or s["off"] < b["outp"]:
+                continue
+            rel = s["off"] - b["outp"]
+            if b["size"] is not None:
+                end = b["size"]            # Bankdef::size is in bits
+                if rel > end or (rel == end and s["size"] > 0):
+                    continue
+            cands.append(b["addr"] + rel // b["unit"])
+        if s["addr"] not in cands or (s["size"] > 0 and len(set(cands)) != 1):
+            return False, "the item at output bit %d (size %d) is listed at address 0x%x, its bank assigns %s" % (
+                s["off"], s["size"], s["addr"], ", ".join("0x%x" % c for c in cands) or "nothing")
+    return True, ""
 
 
 # ------------------------------------------------------------------ damage (sensitivity controls)
@@ -366,6 +397,35 @@ def run(chk):
         for ri, rq in enumerate(reqs):
             cases.append({"pi": pi, "rq": rq, "info": info, "out": info["outs"][ri], "rep": rep, "tags": ptags, "stream": stream})
 
+    # ---- the addresses the spans carry (and every listing therefore prints) against the bank layout
+    okprogs = sorted(set(c["pi"] for c in cases))
+    first = {}
+    for c in cases:
+        first.setdefault(c["pi"], c)
+    alines = ["A %s %s" % (first[pi]["info"]["banks_wire"], first[pi]["info"]["spans_wire"]) for pi in okprogs]
+    ares = vlib.run_lines(model, alines)
+    nonpow2 = 0
+    for pi, ans in zip(okprogs, ares):
+        c = first[pi]
+        info = c["info"]
+        units = set(b["unit"] for b in info["banks"] if len(info["banks"]) == 1 or b["index"] != 0)
+        if any(u & (u - 1) for u in units):
+            nonpow2 += 1
+            chk.nontriv((pi, "addresses"))
+        pyok, why = py_addresses_ok(info)
+        if ans != "1" or not pyok:
+            text = ""
+            for cc in cases:
+                if cc["pi"] == pi and cc["rq"][0] == "a":
+                    hx_, _m = split_out(cc["out"])
+                    text = bytes.fromhex(hx_).decode("utf-8") if hx_ and hx_ != "-" else ""
+                    break
+            chk.violation("a listed logical address is not the address the bank layout assigns to that output position "
+                          "(extracted addresses_ok: %s; Python reading: %s)" % (ans, why or "agrees"),
+                          dict(c["rep"], format="addresses", banks=info["banks_wire"], spans=info["spans_wire"][:4000],
+                               annotated_text=text[:3000]))
+    chk.count("addresses", len(okprogs), programs_with_non_power_of_two_unit=nonpow2)
+
     # ---- model and checker lines
     rs = chk.rng.fork("shuffle")
     mlines, clines = [], []
@@ -531,6 +591,9 @@ def replay(chk, rep):
             print("implementation (%s) now: %s" % (p, out[:300]))
             continue
         reqs = line.split("\t")[3].split(" ")
+        print(" addresses against the bank layout (%s): extracted addresses_ok = %s ; Python reading: %s" % (
+            info["banks_wire"], vlib.run_lines(model, ["A %s %s" % (info["banks_wire"], info["spans_wire"])], shards=1)[0],
+            py_addresses_ok(info)[1] or "agrees"))
         print("implementation (%s) now: bits=%s\n spans=%s\n symbols=%s" % (p, info["bits"][:400], info["spans_wire"][:1500], info["syms_wire"][:1500]))
         for rq, o in zip(reqs, info["outs"]):
             hexs, marker = split_out(o)
